@@ -242,6 +242,10 @@ def run_c07_abort(sc):
                         continue
                     if e["t"] + d_us + 200_000 >= end_t:
                         continue
+                    # a later rollback that cancels and re-arms the same state before this deadline restarts the delay
+                    # (it is judged on its own); repeated aborts may legitimately postpone the expiry for ever
+                    if any(e2["seq"] > e["seq"] and sid in e2["before"] and e2["t"] <= e["t"] + d_us for e2 in errors):
+                        continue
                     # re-armed = the expiry is delivered again (the transition it drives may abort again)
                     fired = any(x[K] == "recv" and x[4] == root and x[5] == f"after.{dkey}.{sid}" and x[SEQ] > e["seq"] for x in res.trace)
                     was_exited_by_abort = any(x[K] == "act" and x[4] == root and x[5] == "ex." + sid and x[SEQ] < e["seq"] for x in res.trace)
